@@ -304,3 +304,20 @@ fn connect_graph<T: FloatT>(L: &mut CscMatrix<T>) {
         }
     }
 }
+
+// ---------------------------------------------------------------------------
+// verification hooks (add-only, off unless feature `verif-hooks` is enabled)
+#[cfg(feature = "verif-hooks")]
+pub(crate) mod vh_chordal_info {
+    use super::*;
+
+    pub(crate) fn find_graph(nz_mask: &[bool]) -> (CscMatrix<f64>, Vec<usize>) {
+        super::find_graph(nz_mask)
+    }
+    pub(crate) fn find_aggregate_sparsity_mask<T: FloatT>(A: &CscMatrix<T>, b: &[T]) -> Vec<bool> {
+        super::find_aggregate_sparsity_mask(A, b)
+    }
+    pub(crate) fn connect_graph<T: FloatT>(L: &mut CscMatrix<T>) {
+        super::connect_graph(L)
+    }
+}
